@@ -22,7 +22,7 @@ import random
 from lib.monitors.taint_shim import Rule, RuleSet, ARG_TARGETS
 
 CARRIERS = ("assign", "op", "param", "ret", "field", "list", "dict", "closure", "global", "tuple", "cond")
-VARIANTS = {"assign": 2, "op": 6, "param": 3, "ret": 3, "field": 4, "list": 4, "dict": 3, "closure": 2, "global": 3,
+VARIANTS = {"assign": 2, "op": 6, "param": 8, "ret": 3, "field": 4, "list": 4, "dict": 3, "closure": 2, "global": 3,
             "tuple": 2, "cond": 3}
 SOURCE_KINDS = ("call", "mcall", "param", "fread", "fread_this")
 SINK_KINDS = ("call", "mcall", "fwrite", "rwrite")
@@ -35,12 +35,23 @@ PATH_RESTRICTIONS = ("away:path", "ok:path")
 # the matchers that read unit_path (parameter sources and call sinks have that filter commented out)
 READS_UNIT_PATH = {("source", "call"), ("source", "mcall"), ("source", "fread"), ("source", "fread_this"),
                    ("sink", "mcall"), ("sink", "fwrite"), ("sink", "rwrite")}
-SRCIN = ("r1@1", "r2f@1", "r2l@1", "r2e@1", "r2E@1", "r3m@1", "r2f@2", "r2l@2", "r1@2")
+SRCIN = ("r1@1", "r2f@1", "fvAT@1", "r2l@1", "pmAT@1", "r2e@1", "fvBE@1", "r2E@1", "pmBE@1", "r3m@1", "fvAE@1", "r2f@2", "pmAE@1",
+         "r2l@2", "fvBT@1", "r1@2", "pmBT@1")
 TARGET_LISTS = {"call": [["\\%arg0", "\\%arg2"], ["\\%arg1", "\\%arg2"], ["\\%arg0", "\\%arg1"], ["\\%arg2", "\\%arg0"]],
                 "mcall": [["\\%receiver", "\\%arg1"], ["\\%arg0", "\\%arg1"], ["\\%arg1", "\\%receiver"]]}
 # a first (or only) target that is no keyword of the format: it designates nothing
 BAD_TARGET_LISTS = {"call": [["\\%bogus", "\\%arg1"], ["%arg0"], ["\\%arg0", "\\%bogus"]],
                     "mcall": [["\\%bogus", "\\%arg0"], ["%arg1"]]}
+
+
+SCHEDULE = {
+    "c11": ["pos", "broken:unrelated-var", "twist:wrong-pos", "pos", "broken:unrelated-field", "ext", "twist:tainted-receiver", "pos",
+            "broken:unrelated-object", "never", "pos", "broken:other-container", "twist:other-key", "pos", "broken:callee-drops", "ext",
+            "twist:near-miss-name", "pos", "broken:callee-other-param", "never", "pos", "broken:killed", "pos"],
+    "c10": ["pos", "pos", "broken", "pos", "pos", "twist:wrong-pos", "pos", "pos", "ext", "pos", "pos", "broken", "pos", "pos", "never",
+            "pos", "twist:tainted-receiver", "pos", "pos", "broken", "pos", "twist:other-key", "pos"],
+}
+LAYOUTS = ([0], [1], [0], [0, 1], [0], [1, 1], [0], [1, 2], [0], [0, 1, 2], [0], [1, 1, 2])
 
 
 def restriction_combos():
@@ -245,6 +256,8 @@ def emit_source_in_callee(ctx, body):
     g, prog = ctx.g, ctx.prog
     kind, levels = g["srcin"].split("@")
     levels = int(levels)
+    if kind[:2] in ("fv", "pm"):
+        return emit_source_two_callees(ctx, body, kind)
     lay = g["layout"] or [0]
     f_outer = lay[0]
     f_inner = lay[min(levels, len(lay)) - 1]
@@ -288,6 +301,63 @@ def emit_source_in_callee(ctx, body):
         body.add(f"{flv} = askflag()")
     y = prog.fresh("v")
     body.add(f"{y} = {prog.ref(callee, ctx.file, callee_file, g['imp'])}({flv})")
+    ctx.maybe_str = True
+    return y
+
+
+def emit_source_two_callees(ctx, body, kind):
+    """One call statement with two possible callees; only one of them produces (and returns) the source value.
+    fv = a function value chosen in an if/else and then called; pm = a method call on a receiver that is an instance of one of
+    two classes.  A/B = the producing callee is defined first / second; T/E = it is chosen in the if / else arm."""
+    g, prog = ctx.g, ctx.prog
+    lay = g["layout"] or [0]
+    hf = lay[0]
+    op, name = source_name(g)
+    x = prog.fresh("v")
+    tainted_first, in_if = kind[2] == "A", kind[3] == "T"
+    blocks = []
+    if kind[:2] == "fv":
+        ft, fc = prog.fresh("hs"), prog.fresh("hs")
+        bt = Body()
+        bt.add(f"def {ft}():")
+        bt.ind = 1
+        emit_source_stmt(g, prog, bt, x, name, ("src", g["gid"]))
+        bt.add(f"return {x}")
+        bc = Body()
+        bc.add(f"def {fc}():")
+        bc.ind = 1
+        bc.add(f"return {_const(prog)}")
+        blocks = [bt, bc] if tainted_first else [bc, bt]
+        vt, vc = prog.ref(ft, ctx.file, hf, g["imp"]), prog.ref(fc, ctx.file, hf, g["imp"])
+    else:
+        ct, cc, meth = prog.fresh("Pm"), prog.fresh("Pm"), prog.fresh("getp")
+        bt = Body()
+        bt.add(f"class {ct}:")
+        bt.ind = 1
+        bt.add(f"def {meth}(self):")
+        bt.ind = 2
+        emit_source_stmt(g, prog, bt, x, name, ("src", g["gid"]))
+        bt.add(f"return {x}")
+        bc = Body()
+        bc.add(f"class {cc}:")
+        bc.ind = 1
+        bc.add(f"def {meth}(self):")
+        bc.ind = 2
+        bc.add(f"return {_const(prog)}")
+        blocks = [bt, bc] if tainted_first else [bc, bt]
+        vt, vc = prog.ref(ct, ctx.file, hf, g["imp"]) + "()", prog.ref(cc, ctx.file, hf, g["imp"]) + "()"
+    for b in blocks:
+        prog.defs[hf].append(b)
+    flv = ctx.flagvar
+    if not ctx.in_func or flv is None:
+        flv = prog.fresh("flag")
+        body.add(f"{flv} = askflag()")
+    f, y = prog.fresh("fv"), prog.fresh("v")
+    body.add(f"if {flv}:")
+    body.sub().add(f"{f} = {vt if in_if else vc}")
+    body.add("else:")
+    body.sub().add(f"{f} = {vc if in_if else vt}")
+    body.add(f"{y} = {f}()" if kind[:2] == "fv" else f"{y} = {f}.{meth}()")
     ctx.maybe_str = True
     return y
 
@@ -343,6 +413,10 @@ def emit_sink(ctx, body, x):
             put = "recv"
         args = [x if q == put else _const(prog) for q in range(n_args)]
         if tk == "call":
+            if g.get("pre_call"):
+                # an earlier call of the same sink function in the same body, with constants only: the real sink statement is
+                # then a second call of that name (matched by the statement's name, not through a state)
+                body.add(f"{name}({', '.join(_const(prog) for _ in args)})")
             body.add(f"{name}({', '.join(args)})", tag)
         else:
             recv, fld = name.split(".")
@@ -492,9 +566,44 @@ def emit_chain(ctx, body, chain, x):
         elif var == 1:
             b.add(f"def {fn}({prog.fresh('p')}, {p}):")
             call = f"({_const(prog)}, {x})"
-        else:
+        elif var == 2:
             b.add(f"def {fn}({p}, {prog.fresh('p')}={_const(prog)}):")
             call = f"({p}={x})"
+        else:
+            # several keyword arguments, written in sorted (4) or non-alphabetical (3, 5, 6, 7) order, after a positional one;
+            # on a function (3-5), a method (6) or a constructor (7); the chain goes on inside the callee on the parameter
+            # that really receives the value
+            prog.counter += 1
+            n = prog.counter
+            pa, kb, kc = f"pa{prog.pid}x{n}", f"kb{prog.pid}x{n}", f"kc{prog.pid}x{n}"
+            if var == 4:
+                kws, p = f"{kb}={_const(prog)}, {kc}={x}", kc
+            elif var == 5:
+                kws, p = f"{kc}={_const(prog)}, {kb}={x}", kb
+            else:
+                kws, p = f"{kc}={x}, {kb}={_const(prog)}", kc
+            if var in (3, 4, 5):
+                b.add(f"def {fn}({pa}, {kb}, {kc}):")
+                call = f"({_const(prog)}, {kws})"
+            else:
+                cls = prog.fresh("Kw")
+                b.add(f"class {cls}:")
+                b.ind = 1
+                if var == 6:
+                    b.add(f"def {fn}(self, {pa}, {kb}, {kc}):")
+                else:
+                    b.add(f"def __init__(self, {pa}, {kb}, {kc}):")
+                b.ind = 2
+                emit_chain(sub, b, rest, p)
+                prog.defs[hf].append(b)
+                ref = prog.ref(cls, ctx.file, hf, g["imp"])
+                o = prog.fresh("o")
+                if var == 6:
+                    body.add(f"{o} = {ref}()")
+                    body.add(f"{o}.{fn}({_const(prog)}, {kws})")
+                else:
+                    body.add(f"{o} = {ref}({_const(prog)}, {kws})")
+                return
         b.ind = 1
         emit_chain(sub, b, rest, p)
         prog.defs[hf].append(b)
@@ -693,34 +802,34 @@ def make_gadget(rng, gid, k, profile, force=None):
     first = CARRIERS[(k // 20) % 11]
     for i in range(n):
         c = first if i == 0 else rng.choice(CARRIERS)
-        chain.append([c, rng.randrange(6)])
+        chain.append([c, rng.randrange(8)])
     g = {"gid": gid, "sk": sk, "tk": tk, "pos": 0, "chain": chain, "twist": None, "src_mode": "base", "snk_mode": "base",
          "src_idx": rng.randrange(2), "snk_idx": rng.randrange(2), "imp": rng.choice(["from", "from", "mod"]), "layout": []}
     if tk == "call":
         g["pos"] = rng.choice([0, 0, 1, 2])
     elif tk == "mcall":
         g["pos"] = rng.choice([0, 0, 1])
-    # negatives
-    p_neg = 0.35 if profile == "c10" else 0.7
-    if rng.random() < p_neg:
-        what = rng.choice(["broken", "broken", "twist", "twist", "rule", "rule"]) if profile == "c11" else rng.choice(["broken", "twist", "rule", "rule"])
-        if what == "broken":
-            kind = rng.choice(BROKEN)
-            chain.insert(rng.randrange(len(chain) + 1), ["broken", kind])
-        elif what == "twist":
-            ok = {"call": ["wrong-pos"], "mcall": ["wrong-pos", "tainted-receiver"], "fwrite": ["tainted-receiver", "near-miss-name"],
-                  "rwrite": ["other-key"]}[tk]
-            g["twist"] = rng.choice(ok)
-        else:
-            g[rng.choice(["src_mode", "snk_mode"])] = rng.choice(["ext", "ext", "never"])
-    # layout: helper level -> file index, non-decreasing
-    r = rng.random()
-    if r < 0.5:
-        g["layout"] = [0]
-    elif r < 0.8:
-        g["layout"] = rng.choice([[1], [0, 1], [1, 1]])
-    else:
-        g["layout"] = rng.choice([[1, 2], [0, 1, 2], [1, 1, 2]])
+    # negatives: stratified, not drawn — the kind of every gadget follows a fixed schedule over the running index (period 23, coprime
+    # to the other cycles), so that every negative kind occurs in every run whatever the seed
+    slot = SCHEDULE[profile][k % 23]
+    cyc = k // 23
+    if slot == "broken":
+        slot = "broken:" + BROKEN[cyc % len(BROKEN)]
+    if slot.startswith("broken:"):
+        chain.insert(rng.randrange(len(chain) + 1), ["broken", slot[7:]])
+    elif slot.startswith("twist:"):
+        tw = slot[6:]
+        kinds = {"wrong-pos": ["call", "mcall"], "tainted-receiver": ["mcall", "fwrite"], "near-miss-name": ["fwrite"], "other-key": ["rwrite"]}[tw]
+        g["tk"] = tk = kinds[cyc % len(kinds)]
+        g["pos"] = g["pos"] if tk in ("call", "mcall") and g["pos"] < (3 if tk == "call" else 2) else 0
+        g["twist"] = tw
+    elif slot in ("ext", "never"):
+        g[("src_mode", "snk_mode")[cyc % 2]] = slot
+    # layout: helper level -> file index, non-decreasing (cycled as well)
+    g["layout"] = list(LAYOUTS[(k // 2) % len(LAYOUTS)])
+    g["imp"] = ("from", "mod", "from")[(k // 4) % 3]
+    if g["tk"] == "call" and k % 3 != 0:
+        g["pre_call"] = True
     # systematically: every `every`-th gadget carries a restricted rule, cycling through all (side, kind, mode) combinations
     every = 5 if profile == "c10" else 3
     if k % every == 0:
@@ -941,7 +1050,8 @@ def rules_for(case, level):
             elif mode == "away:line+unit/U":
                 kw["line_num"], kw["unit_name"] = at[1], other_unit
             elif mode == "away:language":
-                kw["lang"] = "java"
+                # other languages, and names that merely CONTAIN "python" (a group is selected by its exact language name)
+                kw["lang"] = ("java", "python_legacy", "javascript", "xpython", "python3", "c")[g["gid"] % 6]
             elif mode == "away:operation":
                 pass
             elif mode == "ok:line":
@@ -967,15 +1077,28 @@ def rules_for(case, level):
                 else:
                     add(Rule("sink", op, name=name, target=tgt, **kw))
     if level == "extended":
+        # rules that match nothing: some are listed BEFORE the program's own rules, some in between, some after them
         pid = case["pid"]
-        add(Rule("source", "call_stmt", name=f"nowhere_src{pid}"))
-        add(Rule("source", "parameter_decl", name=f"nowhere_param{pid}"))
-        add(Rule("source", "object_call", name=f"nowhere{pid}.recv"))
-        add(Rule("source", "field_read", name=f"nowhere{pid}.fld"))
-        add(Rule("sink", "call_stmt", name=f"nowhere_snk{pid}", target=["\\%arg0"]))
-        add(Rule("sink", "object_call", name=f"nowhere{pid}.exec", target=["\\%arg1"]))
-        add(Rule("sink", "field_write", name=f"nowhere{pid}.wfld", target=["\\%target"]))
-        add(Rule("sink", "record_write", key=f'"nowherekey{pid}"', target=[]))
+        own, rules = rules, []
+        seen.clear()
+        first = [Rule("sink", "call_stmt", name=f"nowhere_snk{pid}", target=["\\%arg0"]),
+                 Rule("source", "call_stmt", name=f"nowhere_src{pid}"),
+                 Rule("sink", "object_call", name=f"nowhere{pid}.exec", target=["\\%arg1"]),
+                 Rule("source", "parameter_decl", name=f"nowhere_param{pid}"),
+                 Rule("source", "field_read", name=f"nowhere{pid}.fld")]
+        between = [Rule("sink", "call_stmt", name=f"nowhere_snkB{pid}", target=["\\%arg1"]),
+                   Rule("source", "object_call", name=f"nowhere{pid}.recv"),
+                   Rule("sink", "field_write", name=f"nowhere{pid}.wfld", target=["\\%target"]),
+                   Rule("source", "call_stmt", name=f"nowhere_srcB{pid}"),
+                   Rule("sink", "record_write", key=f'"nowherekey{pid}"', target=[])]
+        for r in first:
+            add(r)
+        for i, r in enumerate(own):
+            add(r)
+            if i % 2 == 1 and between:
+                add(between.pop(0))
+        for r in between:
+            add(r)
     return RuleSet(rules)
 
 
@@ -1151,6 +1274,8 @@ class Closure:
         if key in self.src_nodes:
             extra.add(self.src_nodes[key])
         if isinstance(e, ast.Name):
+            if e.id in self.funcs:
+                return {f"var:{e.id}", f"ret:{e.id}"} | extra        # a function used as a value: whoever calls it gets its result
             return {f"var:{e.id}"} | extra
         if isinstance(e, ast.Constant):
             return extra
@@ -1158,6 +1283,8 @@ class Closure:
             out = set(extra)
             if isinstance(e.value, ast.Name) and e.value.id in self.modules:
                 out.add(f"var:{e.attr}")
+                if e.attr in self.funcs:
+                    out.add(f"ret:{e.attr}")
                 return out
             out.add(self._fld(e.attr))
             if e.attr not in self.written_fields or "field" in self.relax:
